@@ -10,7 +10,7 @@ from ..framework import Check, Violation
 from ..xplore import HarnessError
 from .. import harness, dialogues
 from ..simdev.base import World
-from ..simdev.powhsm import PowHsm, MODE_SIGNER
+from ..simdev.powhsm import MODE_BOOTLOADER, PowHsm, MODE_SIGNER
 
 BRINGUP = [0x06, 0x43, 0x06, 0x11]
 
@@ -95,6 +95,11 @@ class C11(Check):
         for name, nom in self.nominal.items():
             for idx in sorted({0, nom["n"] - 1}):
                 cs.append({"name": name, "idx": idx, "twofaults": True})
+        # the link failure IS a restart of the device (back in the bootloader, locked), at every exchange
+        # of every command: whatever the command does about it on its way out, the next request
+        # starts with the repair
+        for name, nom in self.nominal.items():
+            cs.append({"name": name, "idx": 0, "reboot": True})
         # the device comes back locked, in the bootloader: the repair is the long bring-up (unlock,
         # signer launched, second open); each of its exchanges failing in turn
         for platform in ("ledger", "sgx"):
@@ -109,7 +114,7 @@ class C11(Check):
             return {"command": "version"}
         return self.reqs[name]
 
-    def history(self, name, idx, fault, follow, k, second=None, inner_open=None):
+    def history(self, name, idx, fault, follow, k, second=None, inner_open=None, reboot=False):
         debug = getattr(self, "debug_dongle", False)
         """returns (world, [(reply, exc)], [log slices])"""
         v1 = name.startswith("v1-")
@@ -127,6 +132,24 @@ class C11(Check):
                 armed["base"] = i
             if i - armed["base"] == idx:
                 armed["on"] = False
+                if reboot:
+                    # the link failed because the device restarted: it is back in the bootloader, locked
+                    # (a write error: before the command arrived; a read error: after it was taken)
+                    def restart():
+                        dev.mode, dev.unlocked = MODE_BOOTLOADER, False
+                        dev.reset_session()
+                    if fault == "write":
+                        restart()
+                    else:
+                        orig = dev.handle
+
+                        def once(apdu):
+                            del dev.handle
+                            try:
+                                return orig(apdu)
+                            finally:
+                                restart()
+                        dev.handle = once
                 return (fault,)
             return None
         w.inject = inject
@@ -186,6 +209,9 @@ class C11(Check):
         if case.get("twofaults"):
             self.twofaults(case, stats, vs)
             return vs
+        if case.get("reboot"):
+            self.reboot(case, stats, vs)
+            return vs
         if case.get("inner_open"):
             follows = self.follow1 if v1 else self.follow5
             for f in follows:
@@ -212,6 +238,53 @@ class C11(Check):
                     for kind2 in ("timeout", "write", "read"):
                         self.second(name, idx, fault, follows[0], j, kind2, stats, vs)
         return vs
+
+    def reboot(self, case, stats, vs):
+        name = case["name"]
+        v1 = name.startswith("v1-")
+        derr = -2 if v1 else -905
+        drain = "v1-getPubKey" if v1 else "getPubKey"
+        nom = self.nominal[name]
+        idxs = [case["at"]] if "at" in case else range(nom["n"])
+        for idx in idxs:
+            for fault in ([case["kind"]] if "kind" in case else ("write", "read")):
+                stats.evaluations += 1
+                w, replies, slices = self.history(name, idx, fault, [drain, drain], 0, reboot=True)
+                codes = [r[0].get("errorcode") if isinstance(r[0], dict) else None for r in replies]
+                stats.observe(("reboot", name, nom["kinds"][idx], fault, tuple(codes), tuple(r[1] for r in replies)),
+                              nontrivial=True)
+                c = dict(case, at=idx, kind=fault)
+
+                def viol(clause, observed, expected):
+                    vs.append(Violation("C11", "C11:%s:%s:restart+%s@%s" % (clause, name, fault, nom["kinds"][idx]),
+                                        c, None, observed, expected, clause))
+                if nom["kinds"][idx] == "exit":
+                    stats.dont_care += 1
+                    continue
+                if replies[0][1] is not None:
+                    viol("faulted-request-stops-manager", {"exc": replies[0][1]}, {"errorcode": derr})
+                    continue
+                if codes[0] != derr:
+                    viol("faulted-request-code", {"reply": replies[0][0]}, {"errorcode": derr})
+                    continue
+                ent = [(e[0], e[2][1] if e[0] == "x" else None) for e in slices[1]]
+                xs = [i for i, e in enumerate(ent) if e[0] == "x"]
+                opens = [i for i, e in enumerate(ent) if e[0] == "open"]
+                if not opens or (xs and xs[0] < opens[0]):
+                    viol("no-repair-after-restart", {"log": ent[:8], "reply": replies[1][0]},
+                         "close / getDongle() and the bring-up checks before any APDU of the request")
+                    continue
+                first = [e[1] for e in ent[opens[0] + 1:opens[0] + 3]]
+                if first != self.bringup[:2]:
+                    viol("bring-up-incomplete", {"apdus_after_open": first, "log": ent[:8]},
+                         {"apdus_after_open": self.bringup[:2]})
+                    continue
+                if replies[1][1] == "RequestHandlerShutdown":
+                    stats.dont_care += 1      # the bring-up decided to stop: C09's matter
+                    continue
+                if replies[1][1] is not None or codes[1] not in (0, 1):
+                    viol("follow-up-fails-after-repair", {"reply": replies[1][0], "exc": replies[1][1],
+                                                         "log": ent[:12]}, {"errorcode": "0/1"})
 
     def twofaults(self, case, stats, vs):
         """request 1 times out at exchange idx (no repair is due for a time-out), request 2 meets a
